@@ -266,8 +266,7 @@ func (fc *FnCtx) evalUnary(st *State, e *ast.UnaryExpr) Val {
 	case token.SUB:
 		v := fc.eval(st, e.X)
 		r := Val{"(- " + v.T + ")", v.Ty}
-		fc.overflowCheck(st, r, e)
-		return r
+		return fc.overflowCheck(st, r, e)
 	case token.ADD:
 		return fc.eval(st, e.X)
 	case token.AND:
@@ -329,11 +328,36 @@ func isStringType(t types.Type) bool {
 	return ok && b.Info()&types.IsString != 0
 }
 
-func (fc *FnCtx) overflowCheck(st *State, r Val, e ast.Expr) {
-	if lo, hi, ok := intRange(r.Ty); ok {
-		fc.assert(st, "overflow", exprText(e), e.Pos(), fmt.Sprintf("(and (<= %s %s) (<= %s %s))", lo, r.T, r.T, hi),
-			"integer arithmetic stays within "+r.Ty.String())
+// overflowCheck: by default an arithmetic result outside the type's range is an obligation (the model uses
+// mathematical integers). Under `arith wrap` the exact two's-complement result is computed instead.
+func (fc *FnCtx) overflowCheck(st *State, r Val, e ast.Expr) Val {
+	lo, hi, ok := intRange(r.Ty)
+	if !ok {
+		return r
 	}
+	if ct := fc.root().ct; (ct != nil && ct.ArithWrap) || (fc.ct != nil && fc.ct.ArithWrap) {
+		w := fc.smt.fresh("wrap", "Int")
+		inr := fmt.Sprintf("(and (<= %s %s) (<= %s %s))", lo, r.T, r.T, hi)
+		st.assume(fmt.Sprintf("(and (<= %s %s) (<= %s %s))", lo, w, w, hi))
+		st.assume(imp(inr, eq(w, r.T)))
+		// exact wrap-around: w == r (mod 2^bits), written with a constant modulus (linear arithmetic)
+		var span string
+		switch hi {
+		case "127", "255":
+			span = "256"
+		case "32767", "65535":
+			span = "65536"
+		case "2147483647", "4294967295":
+			span = "4294967296"
+		default:
+			span = "18446744073709551616"
+		}
+		st.assume(fmt.Sprintf("(= (mod (- %s %s) %s) 0)", w, r.T, span))
+		return Val{w, r.Ty}
+	}
+	fc.assert(st, "overflow", exprText(e), e.Pos(), fmt.Sprintf("(and (<= %s %s) (<= %s %s))", lo, r.T, r.T, hi),
+		"integer arithmetic stays within "+r.Ty.String())
+	return r
 }
 
 func goDiv(a, b string) string {
@@ -417,16 +441,13 @@ func (fc *FnCtx) evalBinary(st *State, e *ast.BinaryExpr) Val {
 			return Val{"(str_concat " + a.T + " " + b.T + ")", rt}
 		}
 		r := Val{"(+ " + a.T + " " + b.T + ")", rt}
-		fc.overflowCheck(st, r, e)
-		return r
+		return fc.overflowCheck(st, r, e)
 	case token.SUB:
 		r := Val{"(- " + a.T + " " + b.T + ")", rt}
-		fc.overflowCheck(st, r, e)
-		return r
+		return fc.overflowCheck(st, r, e)
 	case token.MUL:
 		r := Val{"(* " + a.T + " " + b.T + ")", rt}
-		fc.overflowCheck(st, r, e)
-		return r
+		return fc.overflowCheck(st, r, e)
 	case token.QUO:
 		if isIntegerType(rt) {
 			fc.assert(st, "divzero", exprText(e), e.Pos(), not(eq(b.T, "0")), "division by zero")
@@ -434,8 +455,7 @@ func (fc *FnCtx) evalBinary(st *State, e *ast.BinaryExpr) Val {
 			r := Val{fc.smt.fresh("quo", "Int"), rt}
 			st.assume(eq(r.T, goDiv(a.T, b.T)))
 			st.assume(imp(and("(>= "+a.T+" 0)", "(> "+b.T+" 0)"), eq(r.T, edivT(a.T, b.T))))
-			fc.overflowCheck(st, r, e)
-			return r
+			return fc.overflowCheck(st, r, e)
 		}
 		return Val{"(/ " + a.T + " " + b.T + ")", rt}
 	case token.REM:
@@ -638,6 +658,15 @@ func (fc *FnCtx) evalComposite(st *State, e *ast.CompositeLit, t types.Type) Val
 			fc.mapStore(st, m, k, v.T)
 		}
 		return m
+	case *types.Array:
+		arr := fc.smt.zero(t)
+		for i, el := range e.Elts {
+			if _, ok := el.(*ast.KeyValueExpr); ok {
+				fc.unsupp(el.Pos(), "keyed array literal")
+			}
+			arr = sto(arr, fmt.Sprintf("%d", i), fc.evalElt(st, el, u.Elem()).T)
+		}
+		return Val{arr, t}
 	case *types.Pointer:
 		// element of []*T{{...}}
 		inner := fc.evalComposite(st, e, u.Elem())
